@@ -342,6 +342,12 @@ theorem destroyAll_spec {p : Pool} (hI : Inv p) (os : List Nat) (hnd : os.Nodup)
     obtain ⟨p', h2, h3⟩ := ih hS.inv hnd'.2 hall'
     exact ⟨p', by simp only [destroyAll, bind_apply, h1, h2], h3⟩
 
+/-- the states reachable from the empty pool by a history of operations each executed under its precondition,
+    together with the specification store the same history produces -/
+inductive Reach (L : Nat) : Store → Pool → Prop
+  | init : Reach L Store.empty (Pool.init L)
+  | step {s : Store} {p p' : Pool} (op : Op) : Reach L s p → pre op p → op.run p = .ok () p' → Reach L (step s op) p'
+
 /-- the ids an operation names -/
 def Op.ids : Op → List Nat
   | .ctorDefault o | .ctorUnits o _ | .dtor o | .clear o | .allocate o _ | .allocateFill o _ _ | .writeData o _ _ => [o]
